@@ -106,3 +106,24 @@ Fixpoint items_eqb (a b : list (nat * nat)) : bool :=
   end.
 Definition md_classes (ops : list (hop (list (nat * nat)))) : list nat :=
   id_classes (map fst (run (list (nat * nat)) (list (nat * nat)) sort_items items_eqb ops (hinit (list (nat * nat))) [])).
+
+(* ---- repeated queries on ONE domain object (round 2): every answer of get_unique_k_lengths must
+        be the (pure) table's value set, whatever was called in between ---- *)
+Definition uniq_q_ok (shape : list nat) (ds : list Q) (uniq : list Q) : bool :=
+  qclose_list (map sqq uniq) (usort_q (rg_ksq_q shape ds)).
+Definition uniq_lm_ok (lmax : nat) (uniq : list nat) : bool := nat_list_eqb (lm_unique lmax) uniq.
+
+(* ---- DOFSpace(dof_weights): dvol = weights, size = len(weights), total_volume = sum(dvol) ---- *)
+Fixpoint q_list_eqb (a b : list Q) : bool :=
+  match a, b with
+  | [], [] => true
+  | x :: a', y :: b' => Qeq_bool x y && q_list_eqb a' b'
+  | _, _ => false
+  end.
+Definition dof_ok (weights : list Q) (size : nat) (dvol : list Q) (total : Q) : bool :=
+  (length weights =? size) && q_list_eqb dvol weights && qclose total (qsum weights).
+
+(* ---- PowerSpace._powerIndexCache: the cached index arrays are canonical objects keyed by
+        (partner description, binbounds): identity classes follow the hash-consing model ---- *)
+Definition pc_classes (keys : list nat) : list nat :=
+  dt_classes (map (fun k => Make (list nat) [k]) keys).
